@@ -383,6 +383,12 @@ class World:
         ctx.op("KmerAlphabet")
         arg = self.spacing_arg.copy() if isinstance(self.spacing_arg, np.ndarray) else self.spacing_arg
         self.kalph = KmerAlphabet(self.alph, k, arg)
+        if isinstance(arg, np.ndarray):
+            # the caller's work buffer is reused afterwards: the alphabet must have taken its own copy
+            arg[:] = np.arange(len(arg), dtype=arg.dtype)
+            ctx.op("spacing_array_overwritten_after_construction")
+        elif isinstance(arg, list):
+            arg.reverse()
         self.maxlen = 40 if (ctx.tier == "quick" or rng.random() < 0.8) else 150
         ctx.log("world", {"n": n, "k": k, "alphabet": akind, "spacing": self.offsets, "form": self.spacing_form})
 
